@@ -222,10 +222,11 @@ example : (Node.list (.cons (.assign (.field 1 1 0 0 (.listener 2)) (.int 0))
         (.cons (.cmd 3 true (.cons (.str 4) (.cons (.int 7) .nil)))
           (.cons (.assign (.field 1 1 0 0 (.listener 2)) (.int 1)) .nil)))) .none) .nil))).plain = true := by decide
 
-/-- so are `-local.x` and `-(local.a + 1)`; `-(-5)` is not -/
+/-- so are `-local.x`, `-(local.a + 1)` and `-(-5)`; a minus on a statement-like node is not -/
 example : (Node.f1 Gen.EmitConsts.OP_UN_MINUS (.field 1 1 0 0 (.listener 2))).plain = true
     ∧ (Node.f1 Gen.EmitConsts.OP_UN_MINUS (.f2 Gen.EmitConsts.OP_BIN_PLUS (.field 1 1 0 0 (.listener 2)) (.int 1))).plain = true
-    ∧ (Node.f1 Gen.EmitConsts.OP_UN_MINUS (.f1 Gen.EmitConsts.OP_UN_MINUS (.int 5))).plain = false := by decide
+    ∧ (Node.f1 Gen.EmitConsts.OP_UN_MINUS (.f1 Gen.EmitConsts.OP_UN_MINUS (.int 5))).plain = true
+    ∧ (Node.f1 Gen.EmitConsts.OP_UN_MINUS .brk).plain = false := by decide
 
 /-- negative literals are in the class: `local.a = -5`, `local.b = -1.5` -/
 example : (Node.list (.cons (.assign (.field 1 1 0 0 (.listener 2)) (.f1 Gen.EmitConsts.OP_UN_MINUS (.int 5)))
